@@ -201,6 +201,17 @@ def np_haversine(lat, lon):
     return 2 * np.arctan2(np.sqrt(a), np.sqrt(1 - a))
 
 
+KF_ANTIPODAL = "vario_estimate:latlon:antipodal-pair:haversine-arg>1:nan-distance-counted-in-every-bin"
+
+
+def kernel_hav_arg(lat1, lon1, lat2, lon2):
+    """the haversine argument exactly as variogram/estimator.pyx computes it (same libm calls, same order)"""
+    d2r = math.pi / 180.0
+    dla = (lat2 - lat1) * d2r
+    dlo = (lon2 - lon1) * d2r
+    return math.pow(math.sin(dla / 2.0), 2) + math.cos(lat1 * d2r) * math.cos(lat2 * d2r) * math.pow(math.sin(dlo / 2.0), 2)
+
+
 def random_rotation(rng):
     q, r = np.linalg.qr(rng.normal(size=(3, 3)))
     q = q * np.sign(np.diag(r))
@@ -268,12 +279,15 @@ def corr_sphere(ctx, drv, rng, n_cases):
             ctx.count(("haversine", "dup" if (lat[i], lon[i]) == (lat[j], lon[j]) else "pair"), hist=dict(op="dist_haversine"))
             case = dict(pos=hexl(pos), i=i, j=j, model=C.fhex(dm))
             if src is not None:
-                ds = float(src.dist_haversine(2, pos, i, j))
+                try:
+                    ds = float(src.dist_haversine(2, pos, i, j))
+                except ValueError:      # math.sqrt(negative): the C kernel returns NaN here
+                    ds = float("nan")
                 if C.ulp_diff(dm, ds) > 4 and abs(dm - ds) > 1e-15:
                     viol(ctx, "correspondence: dist_haversine (translated) vs source interpretation",
                          "translated kernel and plain interpretation of estimator.pyx differ", dict(case, src=C.fhex(ds)),
                          "corr:haversine-src", no_input=True)
-            if i != j:
+            if i != j and not math.isnan(dm):
                 # compiled kernel: the pair must fall into the bin [d(1-1e-12), d(1+1e-12)) around the model distance
                 f = np.array([[0.0] * 6])
                 f[0, i], f[0, j] = 1.0, 3.0
@@ -471,7 +485,11 @@ def corr_bins_fit(ctx, drv, rng, n_cases):
         ctx.count(("standard_bins", gname, n), hist=dict(op="standard_bins(latlon)", geo_scale=gname))
         edges = gs.standard_bins((lat, lon), latlon=True, geo_scale=g)
         md = drv.call("latlon_bins_max_dist", g, np.ascontiguousarray(np.vstack([lat, lon]).T))
-        if not agree(edges[-1], md, math.pi * g, 1e-9) or edges[0] != 0.0:
+        # conditioning of arcsin at x = diam / (2 g): d(asin) = dx / sqrt(1 - x^2) (a bounding box spanning the whole sphere has
+        # x = 1 - O(eps), where one ulp of the box diagonal moves the result by ~ sqrt(eps))
+        xq = min(1.0, math.sin(min(3 * edges[-1] / (2 * g), math.pi / 2)))
+        tol_b = 1e-12 + 8e-16 / math.sqrt(max(1 - xq * xq, 4e-16))
+        if not agree(edges[-1], md, math.pi * g, tol_b) or edges[0] != 0.0:
             viol(ctx, "correspondence: standard_bins(latlon)", "model max_dist and standard_bins differ",
                  dict(geo_scale=g, lat=hexl(lat), lon=hexl(lon), impl=C.fhex(edges[-1]), model=C.fhex(md)), "corr:standard_bins", no_input=True)
         # fit: great-circle lags -> chordal lags
@@ -619,6 +637,26 @@ def probe_vario(ctx, rng, n_cases):
             sel = (dists >= edges[b]) & (dists < edges[b + 1])
             exp_cnt[b] = int(sel.sum())
             exp_gam[b] = 0.5 * df2[sel].mean() if sel.any() else 0.0
+        # pairs whose haversine argument exceeds 1 in floating point (exact antipodes): the kernel's distance is NaN
+        nanp = np.array([kernel_hav_arg(lat[a], lon[a], lat[b], lon[b]) > 1.0 for a, b in zip(*iu)])
+        if nanp.any() and not np.array_equal(np.asarray(cnt, dtype=int), exp_cnt):
+            # known defect pattern: those pairs are counted in EVERY bin; everything else must still agree
+            dcnt = np.zeros(nb, dtype=int)
+            dgam = np.zeros(nb)
+            for b in range(nb):
+                sel = ((dists >= edges[b]) & (dists < edges[b + 1]) & ~nanp) | nanp
+                dcnt[b] = int(sel.sum())
+                dgam[b] = 0.5 * df2[sel].mean() if sel.any() else 0.0
+            if np.array_equal(np.asarray(cnt, dtype=int), dcnt) and agree(gam, dgam, np.maximum(np.abs(dgam), 1.0), 1e-11):
+                k = int(np.flatnonzero(nanp)[0])
+                a, b = int(iu[0][k]), int(iu[1][k])
+                viol(ctx, "probe: vario_estimate(latlon) vs model geometry",
+                     "an antipodal pair gets a NaN great-circle distance (haversine argument > 1 by rounding) and is counted in every bin",
+                     dict(case, pair=[[C.fhex(lat[a]), C.fhex(lon[a])], [C.fhex(lat[b]), C.fhex(lon[b])]],
+                          pair_dec=[[lat[a], lon[a]], [lat[b], lon[b]]], counts=[int(c) for c in cnt], expected_counts=[int(c) for c in exp_cnt]),
+                     KF_ANTIPODAL)
+                ctx.known_hit_cases = getattr(ctx, "known_hit_cases", 0) + 1
+                continue
         if not (np.array_equal(np.asarray(cnt, dtype=int), exp_cnt) and agree(gam, exp_gam, np.maximum(np.abs(exp_gam), 1.0), 1e-11)):
             viol(ctx, "probe: vario_estimate(latlon) vs model geometry",
                  "bin membership / estimate of vario_estimate(latlon=True) differs from binning the model's great-circle distances",
@@ -632,7 +670,8 @@ def probe_vario(ctx, rng, n_cases):
         # standard bins: unit of geo_scale, great-circle diameter of the bounding box / 3, at most a third of half the circumference
         sb_g = gs.standard_bins((lat, lon), latlon=True, geo_scale=g)
         sb_1 = gs.standard_bins((lat, lon), latlon=True, geo_scale=1.0)
-        if not (agree(sb_g, g * sb_1, math.pi * g, 1e-9) and sb_g[-1] <= math.pi * g / 3 * (1 + 1e-12) and sb_g[0] == 0.0):
+        # (arcsin of the box diagonal: up to ~ 4 sqrt(eps) relative when the bounding box spans the whole sphere)
+        if not (agree(sb_g, g * sb_1, math.pi * g, 2e-7) and sb_g[-1] <= math.pi * g / 3 * (1 + 1e-12) and sb_g[0] == 0.0):
             viol(ctx, "probe: standard_bins(latlon) scale", "standard_bins(latlon, geo_scale=g) != g * standard_bins(latlon, geo_scale=1)",
                  dict(case, bins_g=hexl(sb_g), bins_1=hexl(sb_1)), "probe:standard-bins")
 
@@ -837,6 +876,15 @@ def probe_fit(ctx, rng, n_cases):
 def run(ctx):
     rng = C.Rng(ctx.seed, "C13")
     thorough = ctx.tier == "thorough"
+    SEEN.clear()
+    try:   # own fragment of the known findings (known_findings.json is assembled from known_findings.d/*.json)
+        import os
+        have = {k.get("key") for k in ctx.kf}
+        for e in json.load(open(os.path.join(C.VERIF, "known_findings.d", "C13.json"))):
+            if e.get("property") == "C13" and e.get("key") not in have:
+                ctx.kf.append(e)
+    except (OSError, ValueError):
+        pass
     ctx.rule = ("cases = (operation or probe) x configuration kind (lat-lon / metric, temporal on/off) x geo_scale in {radian, degree, km, 3.7} "
                 "x dimension x point kind (random, pole, date line, wrapped longitude, duplicate, antipode) x kriging variant; a case is "
                 "non-trivial unless it is a scalar off-sphere/boundary helper call; distinct = distinct keys of that tuple")
@@ -893,16 +941,16 @@ def run(ctx):
     try:
         # 4. correspondence
         if drv is not None:
-            stage("corr_sphere", corr_sphere, ctx, drv, rng, 40 if thorough else 12)
-            stage("corr_state", corr_state, ctx, drv, rng, 400 if thorough else 90)
-            stage("corr_krige", corr_krige, ctx, drv, ora, rng, 60 if thorough else 16)
-            stage("corr_bins_fit", corr_bins_fit, ctx, drv, rng, 40 if thorough else 12)
+            stage("corr_sphere", corr_sphere, ctx, drv, rng, 400 if thorough else 40)
+            stage("corr_state", corr_state, ctx, drv, rng, 4000 if thorough else 300)
+            stage("corr_krige", corr_krige, ctx, drv, ora, rng, 800 if thorough else 60)
+            stage("corr_bins_fit", corr_bins_fit, ctx, drv, rng, 400 if thorough else 40)
         # 5. probes
-        stage("probe_geometry", probe_geometry, ctx, rng, 200 if thorough else 40)
-        stage("probe_vario", probe_vario, ctx, rng, 200 if thorough else 40)
-        stage("probe_pipelines", probe_pipelines, ctx, rng, 80 if thorough else 16)
-        stage("probe_time_axis", probe_time_axis, ctx, rng, 200 if thorough else 40)
-        stage("probe_fit", probe_fit, ctx, rng, 16 if thorough else 8)
+        stage("probe_geometry", probe_geometry, ctx, rng, 2000 if thorough else 160)
+        stage("probe_vario", probe_vario, ctx, rng, 2000 if thorough else 160)
+        stage("probe_pipelines", probe_pipelines, ctx, rng, 600 if thorough else 40)
+        stage("probe_time_axis", probe_time_axis, ctx, rng, 2000 if thorough else 160)
+        stage("probe_fit", probe_fit, ctx, rng, 80 if thorough else 8)
         ctx.notes.append("stage seconds: %s" % json.dumps(timing))
         C.log("[C13] stage seconds: %s" % json.dumps(timing))
     finally:
